@@ -7,9 +7,21 @@ package outbound
 // C15: every attempt of a selection - the requested network type, the other IP family when allowed,
 // and the single-node last resort - is made with the caller's exclusion; the family fallback is taken
 // only when the caller allows it; the last resort only for a one-node group with the fixed(0) policy.
+//@ macro needsSets(p string) = p == consts.DialerSelectionPolicy_Random || p == consts.DialerSelectionPolicy_MinLastLatency || p == consts.DialerSelectionPolicy_MinAverage10Latencies || p == consts.DialerSelectionPolicy_MinMovingAverageLatencies
+// group invariant (established by buildSelectionState, not verified here): a published selection state
+// whose policy needs alive sets has all eight slots filled with well-formed sets.
+//@ macro wfState(st *dialerGroupSelectionState) = needsSets(st.policy.Policy) ==> (forall k int {st.aliveDialerSets[k]} :: 0 <= k && k < 8 ==> st.aliveDialerSets[k] != nil && dialer.wfSet(st.aliveDialerSets[k]))
+
+//@ func (*DialerGroup).currentSelectionState
+//@   ensures result != nil
+//@   ensures g.selectionState.Load() != nil ==> result == g.selectionState.Load()
+//@   ensures g.selectionState.Load() == nil ==> result.policy.Policy == "" && fresh(result)
+
 //@ func (*DialerGroup).SelectWithExclusionResult
 //@   nonilcheck
 //@   modifies *
+//@   requires networkType != nil
+//@   requires g.selectionState.Load() != nil ==> wfState(g.selectionState.Load())
 //@   at call _select#1 assert a1 == networkType && a4 == excluded
 //@   at call _select#2 assert !strictIpVersion && a4 == excluded && a1 != networkType
 //@   at call _select#3 assert a1 == networkType && a4 == excluded && len(g.Dialers) == 1 && a3.Policy == consts.DialerSelectionPolicy_Fixed && a3.FixedIndex == 0
@@ -39,7 +51,7 @@ package outbound
 //@   let isMin() = policy.Policy == consts.DialerSelectionPolicy_MinLastLatency || policy.Policy == consts.DialerSelectionPolicy_MinAverage10Latencies || policy.Policy == consts.DialerSelectionPolicy_MinMovingAverageLatencies
 //@   let isRand() = policy.Policy == consts.DialerSelectionPolicy_Random
 //@   requires networkType != nil && state != nil
-//@   requires forall k int {setOf(k)} :: 0 <= k && k < 8 ==> setOf(k) != nil && dialer.wfSet(setOf(k))
+//@   requires isRand() || isMin() ==> (forall k int {setOf(k)} :: 0 <= k && k < 8 ==> setOf(k) != nil && dialer.wfSet(setOf(k)))
 //@   ensures len(g.Dialers) > 0 && policy.Policy == consts.DialerSelectionPolicy_Fixed && 0 <= policy.FixedIndex && policy.FixedIndex < len(g.Dialers) ==> err == nil && d == g.Dialers[policy.FixedIndex]
 //@   ensures policy.Policy == consts.DialerSelectionPolicy_Fixed && (policy.FixedIndex < 0 || policy.FixedIndex >= len(g.Dialers)) ==> err != nil
 //@   ensures (isRand() || isMin()) && err == nil ==> d != nil && (excluded != nil ==> d != excluded) && (exists k int :: 0 <= k && k < 8 && dialer.isAliveIn(setOf(k), d))
